@@ -54,5 +54,8 @@ func main() {
 		Rng: NewRng(uint64(*seed)), seen: map[string]struct{}{}, trivial: map[string]bool{}, start: time.Now(), Replay: *replay,
 		Res: &Result{Property: *prop, Tier: *tier, Seed: *seed, Tags: map[string]int{}, Sizes: map[string]int{}, Mismatches: []Mismatch{}, Samples: []interface{}{}}}
 	f(c)
+	if c.Replay == "" {
+		runSrc(c)
+	}
 	c.Finish(*out)
 }
